@@ -19,13 +19,22 @@ def case_text(line):
     return f[0], [int(x) for x in f[1:]]
 
 
+def describe(ctag, cps):
+    if ctag == "B" and len(cps) == 4:
+        return ("file on disk built by harness border_file(border=%d, delta=%d, eol=%s, high_bytes=%d): line ending "
+                "starting at byte offset border-1+delta" % (cps[0], cps[1] - 1000, ["LF", "CR", "CRLF"][min(cps[2], 2)], cps[3]))
+    if len(cps) > 4000:
+        return printable(cps[:300]) + " ... (%d characters) ... " % len(cps) + printable(cps[-300:])
+    return printable(cps)
+
+
 def printable(cps):
     return "".join(chr(c) for c in cps).encode("unicode_escape").decode("ascii")
 
 
 def nontrivial(tag, cps, impl_diags):
     """multi-unit or non-ASCII character, TAB, CR, a lexical error, or a Latin-1 file case"""
-    return tag == "L" or bool(impl_diags) or any(c > 126 or c == 13 or c == 9 for c in cps)
+    return tag in ("L", "B") or bool(impl_diags) or any(c > 126 or c == 13 or c == 9 for c in cps)
 
 
 def open_findings():
@@ -63,6 +72,9 @@ class Stats:
 
 def account(st, tag, cps, it, idg):
     st.kinds_of_case[tag] = st.kinds_of_case.get(tag, 0) + 1
+    if tag == "B":
+        st.tokens += len(it.split(";")) if it else 0
+        return
     b = min(len(cps) // 10 * 10, 100)
     st.sizes[b] = st.sizes.get(b, 0) + 1
     if any(c > 65535 for c in cps):
@@ -98,8 +110,8 @@ def compare(res, st, tag, cases, impl, model, sample_every, findings, seen_known
             res.count_case(c, nontrivial(ctag, cps, idg))
             account(st, ctag, cps, it, idg)
             if n % 4000 == 1:
-                res.add_sample({"case": c, "text": printable(cps), "impl_tokens": it[:300], "impl_diagnostics": idg[:200]})
-            if sample_every and n % sample_every == 0 and mf and not mf.startswith("HANG") and len(cps) <= 120:
+                res.add_sample({"case": c, "text": describe(ctag, cps), "impl_tokens": it[:300], "impl_diagnostics": idg[:200]})
+            if sample_every and n % sample_every == 0 and mf and not mf.startswith(("HANG", "SKIP")) and ctag != "B" and len(cps) <= 120:
                 sampled.append((c, mf))
             bad = None
             kind = "input"
@@ -122,18 +134,20 @@ def compare(res, st, tag, cases, impl, model, sample_every, findings, seen_known
                     bad = "token position/lexeme property violated by the implementation: " + io[:300]
             if bad:
                 if len(pending["input"]) < 6:
-                    pending["input"].append((bad, {"kind": kind, "case": c, "text": printable(cps), "impl_tokens": it,
+                    pending["input"].append((bad, {"kind": kind, "case": c, "text": describe(ctag, cps), "impl_tokens": it,
                                                    "impl_diagnostics": idg, "oracle": io, "model_tokens": mt,
                                                    "model_diagnostics": mdg,
                                                    "replay_cmd": "./check C11 --replay <this file>"}))
                 pending["n_input"] += 1
+            elif mf == "SKIP":
+                pass        # large file: implementation-level oracle only
             elif (it, idg) != (mt, mdg) and not io.startswith(("HANG", "PANIC")):
                 if len(pending["corr"]) < 4:
                     pending["corr"].append((
                         "correspondence broken: tokens/diagnostics of the implementation differ from the Coq model "
                         "RH.Lex.LangLexer.lex_all although the position oracle is satisfied",
                         {"kind": "correspondence", "correspondence": "TokenStream::new vs RH.Lex.LangLexer.lex_all",
-                         "case": c, "text": printable(cps), "impl_tokens": it, "impl_diagnostics": idg,
+                         "case": c, "text": describe(ctag, cps), "impl_tokens": it, "impl_diagnostics": idg,
                          "model_tokens": mt, "model_diagnostics": mdg,
                          "replay_cmd": "./check C11 --replay <this file>"}))
                 pending["n_corr"] += 1
@@ -214,7 +228,7 @@ def main(tier, replay=None):
             last = last.rstrip("\n")
             ctag, cps = case_text(last) if last else ("U", [])
             res.violation("the tokenizer hangs, exhausts memory or crashes the process on this input (harness rc=%s)" % rc,
-                          {"kind": "input", "case": last, "text": printable(cps), "log": out[-1500:],
+                          {"kind": "input", "case": last, "text": describe(ctag, cps), "log": out[-1500:],
                            "replay_cmd": "./check C11 --replay <this file>"})
             # compare what was completed (the impl file has one line per finished case)
         if not os.path.exists(cases) or not os.path.exists(impl):
@@ -240,6 +254,9 @@ def main(tier, replay=None):
                           4001 if tier == "thorough" else 301)
         sampled += stream("random", "random", 1000000 if tier == "thorough" else 20000,
                           5003 if tier == "thorough" else 211)
+        # files on disk whose line endings (CRLF, CR, LF; Latin-1 high bytes next to them) fall on and around the
+        # borders of 4 KiB .. 256 KiB blocks: the tokens behind the border are checked against the bytes of the file
+        stream("borders", "borders_thorough" if tier == "thorough" else "borders", 0, 0)
     for what, obj in pending["input"]:
         res.violation(what, obj)
     for what, obj in pending["corr"]:
@@ -270,6 +287,11 @@ def main(tier, replay=None):
         "digits, overflow, exponents, unterminated/multi-line strings, illegal tokens, non-Latin-1 after identifiers, "
         "tool directives, `vhdl_ls off/on` pragmas, no gap between lexemes), 10% random characters over a 40-symbol "
         "alphabet, 20% Latin-1 FILES (bytes written to disk, read with Source::from_latin1_file, sliced by bytes). "
+        "one text in eight starts with or contains one of U+FEFF U+2028 U+2029 NEL FF VT NUL U+FFFE U+200B NBSP; "
+        "stream `borders`: files on disk (Source::from_latin1_file) with CRLF at every offset within +-8 of the 4 KiB, "
+        "8 KiB, 64 KiB and 128 KiB borders, CR/LF at +-1, Latin-1 high bytes next to the border (thorough: 16/32/192/256 "
+        "KiB too, all three line endings at all offsets); files above 16 KiB are checked by the oracle against the bytes "
+        "of the file only (two of them also by the model). "
         "non-trivial = the input has a non-ASCII or multi-unit character, TAB or CR, or a lexical diagnostic, or is a "
         "file case; distinct by hash of the case line")
     res.coverage["trusted_base"] = TRUSTED_BASE_COMMON + [
